@@ -310,6 +310,34 @@ func paramDesc(fn *ssa.Function, i int) string {
 	return fmt.Sprintf("parameter %d", i)
 }
 
+// ruleOPureSighashFor: purity of the receiver for the FORKID algorithm (forkid=true: CalcInputPreimage
+// and its three hash helpers) or the legacy one. CalcInputSignatureHash reaches both builders through
+// sigStrat's function value; writes that sit in the other algorithm's builder belong to the other
+// property and are left to its check.
+func ruleOPureSighashFor(c *Ctx, forkid bool) {
+	oCommon(c, oEngine(c), "O-pure")
+	own := []string{"CalcInputPreimage", "PreviousOutHash", "SequenceHash", "OutputsHash"}
+	other := "CalcInputPreimageLegacy"
+	if !forkid {
+		own = []string{"CalcInputPreimageLegacy"}
+		other = "CalcInputPreimage#"
+	}
+	for _, n := range own {
+		rulePureParam(c, "O-pure", "", "*Tx", n, 0, nil)
+	}
+	rulePureParam(c, "O-pure", "", "*Tx", "CalcInputSignatureHash", 0, func(w *OWrite) (bool, string) {
+		site := w.Site + " " + w.Via
+		if forkid && strings.Contains(site, "CalcInputPreimageLegacy") {
+			return true, "write inside the legacy builder: decided by C03's check"
+		}
+		if !forkid && (strings.Contains(site, ").CalcInputPreimage#") || strings.Contains(site, ").CalcInputPreimage ") || strings.HasSuffix(w.Via, ").CalcInputPreimage")) {
+			return true, "write inside the FORKID builder: decided by C02's check"
+		}
+		_ = other
+		return false, ""
+	})
+}
+
 func ruleOPureSighash(c *Ctx) {
 	oCommon(c, oEngine(c), "O-pure")
 	for _, n := range []string{"CalcInputPreimage", "CalcInputPreimageLegacy", "CalcInputSignatureHash", "PreviousOutHash", "SequenceHash", "OutputsHash"} {
